@@ -304,6 +304,7 @@ def map(
     if isinstance(resolution, int):
         resolution = {"x": resolution, "y": resolution}
     else:
+        resolution = dict(resolution)
         for xy in "xy":
             if xy not in resolution:
                 resolution[xy] = default_resolution
